@@ -70,6 +70,30 @@ def verify(d, tests=False, tier='quick', props=None, workers='8'):
     return res
 
 
+def run_tests(d):
+    """Full repository test-suite with the change applied (scratch worktree); compares with BASELINE.json."""
+    d = os.path.abspath(d)
+    name = os.path.basename(d.rstrip('/'))
+    wt = f'/tmp/st_{name}'
+    sh(f'git -C /repo worktree remove --force {wt}')
+    rc, out = sh(f'git -C /repo worktree add --detach {wt} HEAD')
+    if rc:
+        return dict(error=out[-300:])
+    try:
+        rc, out = sh(f'git -C {wt} apply {d}/patch.diff')
+        if rc:
+            return dict(apply_error=out[-300:])
+        junit = f'/tmp/st_{name}_junit.xml'
+        env = {'PYTHONPATH': f'{wt}/src', 'PYTHONDONTWRITEBYTECODE': '1'}
+        sh(f'nice -n 5 {PY} -m pytest -q -p no:cacheprovider --timeout=900 --continue-on-collection-errors --junitxml={junit}',
+           cwd=wt, env=env, timeout=7200)
+        res = compare_with_baseline(junit)
+        os.remove(junit)
+        return res
+    finally:
+        sh(f'git -C /repo worktree remove --force {wt}')
+
+
 def compare_with_baseline(junit):
     base = json.load(open('/root/.vp/BASELINE.json'))
     stable = set(base['stable_pass'])
@@ -98,6 +122,10 @@ def main():
         res = verify(a[1], tests='--tests' in a, tier=tier, props=props, workers=workers)
         print(json.dumps(res, indent=1))
         json.dump(res, open(os.path.join(a[1], 'verify_result.json'), 'w'), indent=1)
+    elif cmd == 'tests':
+        res = run_tests(a[1])
+        print(json.dumps(res, indent=1))
+        json.dump(res, open(os.path.join(a[1], 'tests_result.json'), 'w'), indent=1)
     elif cmd == 'keep':
         d, sid = a[1], a[2]
         dst = os.path.join(VERIF, 'seeded', sid)
@@ -108,6 +136,11 @@ def main():
         vr = os.path.join(d, 'verify_result.json')
         if os.path.exists(vr):
             meta['confirmed_by_maintainer'] = json.load(open(vr))
+        tr = os.path.join(d, 'tests_result.json')
+        if os.path.exists(tr):
+            meta['repository_tests_with_change'] = json.load(open(tr))
+        if len(a) > 3:
+            meta['maintainer_note'] = a[3]
         json.dump(meta, open(os.path.join(dst, 'meta.json'), 'w'), indent=1)
         print('kept', dst)
     elif cmd == 'rerun':
